@@ -107,6 +107,14 @@ def strip_markers(text, isa):
     return text
 
 
+def arch_of(spec):
+    """the model a spec is analysed with: a shipped one, or (spec["nd"]) a scratch copy with non-dyadic latencies (harness/nd_models.py)"""
+    if spec.get("nd"):
+        import nd_models
+        return nd_models.resolve(spec)
+    return spec["arch"]
+
+
 def build_kernel(spec):
     """spec: {isa, arch, text, markers: bool} -> (kernel, parser, mm, sem)."""
     import models
@@ -118,7 +126,7 @@ def build_kernel(spec):
     kernel = reduce_to_section(parsed, isa) if spec.get("markers") else parsed
     if spec.get("maxlen"):
         kernel = kernel[:spec["maxlen"]]
-    mm, sem = models.load(spec["arch"])
+    mm, sem = models.load(arch_of(spec))
     sem.add_semantics(kernel)
     sem.assign_optimal_throughput(kernel)
     return kernel, parser, mm, sem
@@ -337,11 +345,18 @@ def analyse(spec, W=None, threshold=None, timeout=10, delay=None, shim=None, wan
             ap.append(q)
         res["paths"] = ap
         res["lat_exact"] = exact and ints and not res.get("paths_dropped", False)
+        if spec.get("raw") and ints and not res.get("paths_dropped", False):
+            # what the post-processing was given, with the float latencies bit for bit (for the binary64 evaluation of the regenerated
+            # post-processing): the delivered node lists in arrival order, the int edges of the doubled graph, its int nodes
+            res["raw"] = {"paths": [[int(n) for n in p] for p in raw],
+                          "edges": [[int(u), int(v), float(d["latency"]).hex()] for u, v, d in dg2.edges(data=True)
+                                    if isinstance(u, int) and isinstance(v, int)],
+                          "nodes": sorted(int(n) for n in dg2.nodes if isinstance(n, int))}
     if report:
         from osaca.frontend import Frontend
         try:
             import models
-            fe = Frontend(path_to_yaml=models.yaml_path(spec["arch"]))
+            fe = Frontend(path_to_yaml=models.yaml_path(arch_of(spec)))
             txt = fe.full_analysis(kernel, dg, ignore_unknown=True, arch_warning=False, length_warning=False,
                                    lcd_warning=dg.timed_out, verbose=False)
             res["report_has_warning"] = "WARNING: LCD analysis timed out" in txt
